@@ -249,6 +249,10 @@ func c14Sweep(seed uint64, tier string, build string, emit func(op, obs string),
 					for rep := 0; rep < reps; rep++ {
 						c.args = nil
 						c.ctx = ctx
+						c.msg = "m"
+						if skip == 3 && rep == 2 {
+							c.msg = "\f\u00a0" // white space of the less common kinds is a message like any other: the record has its caller
+						}
 						if rep == 1 || (skip == 2 && rep == 0) {
 							c.ctx = nil // no context given to the …Context verbs: the caller is the same
 						}
